@@ -6,6 +6,7 @@ dp     := {"t": "choices", "k": int, "c": [space, ...], "distinct": bool, "sorte
         | {"t": "float", "lo": num, "hi": num, "name": str|None}
         | {"t": "custom", "name": str|None}
 """
+import math
 import itertools
 
 import pyglove as pg
@@ -41,7 +42,9 @@ def validate(shape, top=True):
       validate(x, False)
   elif t == 'float':
     lo, hi = shape.get('lo'), shape.get('hi')
-    if any(isinstance(x, bool) or not isinstance(x, (int, float)) for x in (lo, hi)) or not lo < hi:
+    if any(isinstance(x, bool) or not isinstance(x, (int, float)) for x in (lo, hi)) or not lo <= hi:
+      raise core.InvalidCase(shape)
+    if shape.get('scale') not in (None, 'linear', 'log', 'rlog') or (shape.get('scale') in ('log', 'rlog') and lo <= 0):
       raise core.InvalidCase(shape)
   elif t == 'custom':
     pass
@@ -81,7 +84,7 @@ def build(shape, _counter=None, location=None):
               literal_values=lits, location=location or '', name=name)
     return G.manyof(shape['k'], cands, **kw)
   if t == 'float':
-    return G.floatv(float(shape['lo']), float(shape['hi']), location=location or '', name=name)
+    return G.floatv(float(shape['lo']), float(shape['hi']), scale=shape.get('scale'), location=location or '', name=name)
   return G.custom(location=location or '', name=name)
 
 
@@ -202,8 +205,18 @@ def shape_strategy(max_depth=2, floats=False, custom=False, names=False, max_can
   def dps(sub):
     opts = [choices(sub)]
     if floats:
-      opts.append(st.builds(lambda lo, w, n: dict({'t': 'float', 'lo': lo, 'hi': lo + w}, **({'name': n} if names and n else {})),
-                            st.integers(-2, 2), st.integers(1, 3), st.sampled_from(NAMES)))
+      def mkfloat(lo, w, n, scale):
+        # widths: 0 (a single point), one ulp, or an ordinary range; bounds that are not dyadic rationals
+        hi = lo if w == 0 else (math.nextafter(lo, math.inf) if w == 'ulp' else lo + w)
+        d = {'t': 'float', 'lo': lo, 'hi': hi}
+        if scale is not None and (scale == 'linear' or lo > 0):
+          d['scale'] = scale
+        if names and n:
+          d['name'] = n
+        return d
+      opts.append(st.builds(mkfloat, st.sampled_from([-2, -1, 0, 1, 2, 0.1, 0.3, 3.0, 1e-3, 10.0, 7.0, -0.7]),
+                            st.sampled_from([1, 2, 3, 1, 2, 3, 0.5, 0, 'ulp']), st.sampled_from(NAMES),
+                            st.sampled_from([None, None, 'linear', 'log', 'rlog'])))
     if custom:
       opts.append(st.just({'t': 'custom'}))
     return st.one_of(*opts)
